@@ -133,7 +133,7 @@ func runC17(c *Ctx, r *Rec) {
 			}
 			env := &symEnv{info: info, base: base}
 			env.resolve = func(e ast.Expr) (Val, bool) {
-				if call, ok := e.(*ast.CallExpr); ok && isBuiltinCall(info, call, "len") && len(call.Args) == 1 && selectorField(info, call.Args[0]) == valuesF {
+				if call, ok := e.(*ast.CallExpr); ok && isBuiltinCall(info, call, "len") && len(call.Args) == 1 && (selectorField(info, call.Args[0]) == valuesF || strings.HasSuffix(env.baseStr(call.Args[0]), "."+valuesF.Name())) {
 					return Val{Lin: size}, true // the snapshot is frozen: its length is the size
 				}
 				return Val{}, false
